@@ -305,8 +305,9 @@ def main_check(mod, argv):
         coqchk_info = None
         if tier == "thorough" and not proof_broken:
             # independent re-check of the compiled props module and everything it depends on
-            modname = "TF." + mod.PROPS_FILE[:-2].replace("/", ".")
-            rc, out, dt = sh(["coqchk", "-silent", "-o", "-Q", ".", "TF", modname], cwd=COQ, timeout=2400)
+            modnames = ["TF." + pf[:-2].replace("/", ".") for pf in [mod.PROPS_FILE] + list(getattr(mod, "EXTRA_PROPS_FILES", []))]
+            modname = " ".join(modnames)
+            rc, out, dt = sh(["coqchk", "-silent", "-o", "-Q", ".", "TF"] + modnames, cwd=COQ, timeout=3600)
             checker_cmds.append("coqchk -silent -o -Q . TF " + modname)
             m = re.search(r"\* Axioms:(.*?)\n\s*\n\s*\*", out, re.S)
             axl = [a.strip() for a in (m.group(1).strip().splitlines() if m else []) if a.strip() and a.strip() != "<none>"]
